@@ -29,8 +29,15 @@ def private_array_line(rng):
     return calls.line("@private_array", "iss", (rng.randint(0, 6), "".join(out), rng.choice(names + ["AA_private_entry", "absent"])))
 
 
-def run_mix(st, exe, lines, T, sdir, tag, rng, mi):
+COMMA = None      # dict(LOCPATH, name) of the comma-decimal locale built by run(), or None
+
+
+def run_mix(st, exe, lines, T, sdir, tag, rng, mi, comma=False):
     """serial reference + three thread runs (yield patterns) of one list of call lines; judged here"""
+    TSAN_ENV = dict(globals()["TSAN_ENV"])
+    if comma and COMMA:
+        TSAN_ENV.update(XRLCALL_LOCALE=COMMA["name"], LOCPATH=COMMA["LOCPATH"])      # the whole mix under a decimal-comma locale
+        st.cls("mixes_under_comma_locale")
     serial, rc0, err0 = calls.run(exe, "simple", lines, sdir, tag + "_s", env=TSAN_ENV)
     if rc0 != 0 or len(serial) != len(lines):
         st.violation("serial-run-failed", dict(mix=mi), "serial reference", err0[-1200:])
@@ -105,7 +112,7 @@ def work(item):
                 continue
             k, a = rng.choice(sw)
             lines.append(calls.line(fn, k, a))
-        run_mix(st, exe, lines, T, sdir, tag, rng, mi)
+        run_mix(st, exe, lines, T, sdir, tag, rng, mi, comma=(mi % 3 == 2))
         st.sample("mix", dict(threads=T, calls=len(lines), first=[l.replace("\t", " ")[:70] for l in lines[:4]]), cap=2)
     return st
 
@@ -134,7 +141,7 @@ def work_focus(item):
                     a2 = ["h:" + args[0][2:]] + list(args[1:])
                     lines += [calls.line(fn, kinds, a2)] * T
         if lines:
-            run_mix(st, exe, lines, T, sdir, tag, rng, "focus:" + ",".join(fns[gi:gi + 6]))
+            run_mix(st, exe, lines, T, sdir, tag, rng, "focus:" + ",".join(fns[gi:gi + 6]), comma=((gi // 6) % 4 == 3))
             st.cls("focus_mixes")
     return st
 
@@ -149,6 +156,9 @@ def run(ctx):
     exe = os.path.join(ctx.sdir, "xrlcall_tsan")
     vbuild.compile_harness(ctx.sdir, b, [os.path.join(VERIF, "harness", "xrlcall.cpp")], exe,
                            extra=["-I" + gen, "-Wno-deprecated-declarations", "-pthread", "-DXRLCALL_WRAP_SETLOCALE", "-Wl,--wrap=setlocale"])
+    global COMMA
+    import localetool
+    COMMA = localetool.make_comma_locale(ctx.sdir)
     items = [(exe, b["src"], ctx.seed, nmix, per_thread, ctx.sdir, "w%d" % k) for k in range(5 if quick else 8)]
     ctx.stats.merge(common.pmap(work, items, jobs=5 if quick else 4))
     allf = sorted(apigen.descriptors(b["src"])[1]) + ["add_compound_data"]
@@ -159,7 +169,7 @@ def run(ctx):
                 "classes over every exported function (insertion only into collections private to the calling thread: init, ReadFile of a generated file, AddCrystal, "
                 "list, lookup, free), with blocks of identical queries issued by all threads at once; "
                 "plus focus mixes in which 4 threads execute the same argument sweep of every function in lockstep; ThreadSanitizer build (library and harness), barrier start, seeded sched_yield injection in the harness; compared line by line with a "
-                "serial run of the same lists; setlocale observed through -Wl,--wrap. non-trivial = mix run in which >= 2 threads execute "
+                "serial run of the same lists; a third of the mixes run under a generated decimal-comma locale; setlocale observed through -Wl,--wrap. non-trivial = mix run in which >= 2 threads execute "
                 "allocating calls, distinct by (call lists, yield pattern)" % (len(items), nmix, per_thread // 2, per_thread))
     ctx.assumptions = ["races inside uninstrumented libc other than setlocale are invisible to ThreadSanitizer",
                        "happens-before race detection does not need the race to manifest, which is what makes generated mixes meaningful here"]
